@@ -28,9 +28,9 @@ def run(prog: Program, rep: Report, tier: str):
     c01_iter.rule_iter(prog, rep)
     from .spline import rule_bin
     rule_bin(prog, rep, "C01.bin")
+    from . import c01_pair
+    c01_pair.rule_pair(prog, rep)
     if tier == "thorough":
-        from . import c01_pair
-        c01_pair.rule_pair(prog, rep)
         from ..audit import audit_c01
         audit_c01(prog, rep)
 
